@@ -21,9 +21,15 @@ import (
 func write(target string, codec sut.Codec, seed int) []byte {
 	t := sut.Get(target)
 	recs := families.MixedRecords(t, 3+seed)[seed:]
+	page := 1
+	if seed >= 2 {
+		// long runs of equal levels in one page (RLE runs, multi-byte headers)
+		recs = families.RunRecords(t, 40+300*(seed-2))
+		page = 0
+	}
 	g := oracle.GoRecs(t, recs)
 	var buf bytes.Buffer
-	w, err := t.NewWriter(&buf, 1, codec)
+	w, err := t.NewWriter(&buf, page, codec)
 	if err != nil {
 		panic(err)
 	}
@@ -46,11 +52,34 @@ func Main() {
 		iters, _ = strconv.Atoi(os.Args[1])
 	}
 	targets := []string{"mini", "flat3"}
+	// cold start: the very first use of the generated packages in this process
+	// happens on 16 goroutines at once (lazily initialised package state is
+	// built here); the outputs are compared with the references afterwards
+	type coldOut struct {
+		key string
+		out []byte
+	}
+	cold := make([]coldOut, 16)
+	{
+		var wg sync.WaitGroup
+		start := make(chan struct{})
+		for g := 0; g < 16; g++ {
+			wg.Add(1)
+			go func(g int) {
+				defer wg.Done()
+				tn, cd, seed := targets[g%2], (g/2)%3, (g/8)%2
+				<-start
+				cold[g] = coldOut{fmt.Sprintf("%s/%d/%d", tn, cd, seed), write(tn, sut.Codec(cd), seed)}
+			}(g)
+		}
+		close(start)
+		wg.Wait()
+	}
 	// sequential references
 	ref := map[string][]byte{}
 	for _, tn := range targets {
 		for cd := 0; cd < 3; cd++ {
-			for seed := 0; seed < 2; seed++ {
+			for seed := 0; seed < 4; seed++ {
 				ref[fmt.Sprintf("%s/%d/%d", tn, cd, seed)] = write(tn, sut.Codec(cd), seed)
 			}
 		}
@@ -58,6 +87,11 @@ func Main() {
 	var wg sync.WaitGroup
 	var mu sync.Mutex
 	bad := 0
+	for _, c := range cold {
+		if !bytes.Equal(c.out, ref[c.key]) {
+			bad++
+		}
+	}
 	for g := 0; g < 16; g++ {
 		wg.Add(1)
 		go func(g int) {
@@ -65,9 +99,9 @@ func Main() {
 			for i := 0; i < iters; i++ {
 				tn := targets[(g+i)%2]
 				cd := (g + i/2) % 3
-				seed := (g / 2) % 2
+				seed := (g / 2) % 4
 				key := fmt.Sprintf("%s/%d/%d", tn, cd, seed)
-				if g%4 == 3 {
+				if g%4 == 3 && seed < 2 {
 					// reader
 					t := sut.Get(tn)
 					rr := drive.ReadAll(t, bytes.NewReader(ref[key]), 16)
